@@ -882,6 +882,15 @@ def attr_cases(tier, rng):
             add(ty, g[:-1], src="utf-8 cut")
     for s in seqs[::5]:
         add(9, [0, 0, 3, 0] + list(s), src="error reason utf-8")
+    # every single byte, and all pairs / sampled triples over punctuation that parsers of quoted or delimited text trip on
+    punct = [0x22, 0x27, 0x20, 0x3a, 0x5c, 0x25, 0x7b, 0x7d, 0x2e, 0x2f, 0x40, 0x0a, 0x09, 0x61]
+    shorts = [(b,) for b in range(256)] + list(itertools.product(punct, repeat=2)) + \
+             [tuple(rng.choice(punct) for _ in range(3)) for _ in range(150 if tier == "quick" else 2000)]
+    for ty in TEXT_TYPES:
+        for v in shorts:
+            add(ty, list(v), src="short text")
+    for v in shorts[::3]:
+        add(9, [0, 0, 4, 1] + list(v), src="short error reason")
     # (c) ERROR-CODE class/number bytes (thorough: all 65536 pairs)
     if tier == "quick":
         pairs = [(c, x) for c in range(256) for x in (0, 1, 98, 99, 100, 101, 255)] + [(c, x) for c in (0, 2, 3, 4, 6, 7, 8, 11, 14, 15, 0xfb, 0xfe) for x in range(256)]
